@@ -5,6 +5,9 @@ loader = importlib.machinery.SourceFileLoader('check', '/verif/check')
 spec = importlib.util.spec_from_loader('check', loader)
 m = importlib.util.module_from_spec(spec); loader.exec_module(m)
 try:
-    print(m.build_harness(sys.argv[1], sys.argv[2], *( [False] if len(sys.argv)>3 and sys.argv[3]=='noshim' else [])))
+    if sys.argv[1] == 'race':
+        print(m.build_harness('race', sys.argv[2], use_shim=False, extra_flags=['-Wl,--wrap=epoll_pwait2']))
+    else:
+        print(m.build_harness(sys.argv[1], sys.argv[2], *( [False] if len(sys.argv)>3 and sys.argv[3]=='noshim' else [])))
 except m.BuildError as e:
     print(e); sys.exit(1)
